@@ -25,7 +25,7 @@
 (*         (1e-5 full scale^2), pk peeked decoder control state after the call  *)
 (***************************************************************************)
 EXTENDS Link, Json, IOUtils, TLC
-CONSTANTS M1, M2, M2After, M2Late, M2LateAfter, M3Num, M3Den, M4,      \* calibrated thresholds (centi-dB; M3 as a ratio of energies), R3
+CONSTANTS M1, M2, M2After, M2Late, M2LateAfter, M3Num, M3Den, M4, M5, M5After,      \* calibrated thresholds (centi-dB; M3 as a ratio of energies), R3
           LevelFloorNeg,                  \* level clauses only above this level (negated centi-dB), R2
           MinFecFrames,                   \* M3 is judged per stream once that many frames were recovered
           CheckM3, CheckM4                \* clauses that calibration left in force
@@ -43,7 +43,8 @@ NoW == [on |-> FALSE]
 \* o1, o2, o4 (n1, n2, n4): largest observed value of the quantity each level clause bounds (and how
 \* often the clause applied) - printed per stream for the calibration table, not judged
 NoObs == -100000
-NoAcc == [sf |-> 0, sp |-> 0, nf |-> 0, drift |-> 0, o1 |-> NoObs, o2 |-> NoObs, o2b |-> NoObs, o2c |-> NoObs, o4 |-> NoObs, n1 |-> 0, n2 |-> 0, n4 |-> 0]
+NoAcc == [sf |-> 0, sp |-> 0, nf |-> 0, drift |-> 0, o1 |-> NoObs, o2 |-> NoObs, o2b |-> NoObs, o2c |-> NoObs, o4 |-> NoObs, n1 |-> 0, n2 |-> 0, n4 |-> 0,
+          o5 |-> NoObs, o5b |-> NoObs, n5 |-> 0, sf3 |-> 0, sp3 |-> 0, nf3 |-> 0]
 BigErr == 100000
 Mn(a, b) == IF a < b THEN a ELSE b
 Mx(a, b) == IF a > b THEN a ELSE b
@@ -54,6 +55,9 @@ Reject(why) == /\ l' = 0 - l /\ PrintT(<<"REJECTED_AT", l, ToString(why)>>) /\ U
 Drift(what) == IF acc.drift >= 5 THEN TRUE ELSE PrintT(<<"DRIFT", l, ToString(what)>>)
 
 PktOf(e) == [hdr |-> e.h, len |-> e.r, fill |-> 0]
+
+DecOfPeekAt(pk, fo, co) == [Fs |-> fo, ch |-> co, prevMode |-> pk[2], mode |-> pk[1], bw |-> pk[6], frameSize |-> pk[4],
+                            streamCh |-> pk[5], prevRedundancy |-> (pk[3] # 0), lastDur |-> pk[7], gain |-> 0]
 
 -----------------------------------------------------------------------------
 (* C02 *)
@@ -77,11 +81,34 @@ EncWhy(e) ==
        ELSE IF badr # {} THEN <<"final range", e.er, e.dec[CHOOSE j \in badr : TRUE]>>
        ELSE <<>>
 
+\* Model conformance of the first decoder on an accepted packet (SPEC-DRIFT only): its control state after the
+\* call is one DecCtl allows, and what its last frame decided about redundancy / transition (hook fields 11..14:
+\* hs = <<redundancy, celt_to_silk, redundancy_bytes, transition>>) is what Link!DecFrame can yield for a frame of
+\* that mode and length, consistent with the new prev_redundancy and with Link!TransitionOf.  <<>>: conforms.
+EncConf(e) ==
+  IF cf.t # "enc" \/ e.r < 1 \/ "hs" \notin DOMAIN e THEN <<>>
+  ELSE LET p == PktOf(e)
+           pr == Parse(p, FALSE)
+           mode == TocMode(pr.toc)
+           lenLast == pr.sizes[pr.count]
+           coded == lenLast > 1
+           obs == [red |-> e.hs[1] # 0, c2s |-> e.hs[2] # 0, rb |-> e.hs[3]]
+           fo == e.dec[1].fo
+           d0 == DecOfPeekAt(e.pk0, fo, e.dec[1].co)
+           d1 == DecOfPeekAt(e.pk1, fo, e.dec[1].co)
+           res == D!DecodeRes(d0, p, 48 * Q(fo), 0)
+           pre == D!FoldFrames({D!WithToc(d0, pr.toc)}, SubSeq(pr.sizes, 1, pr.count - 1), FALSE) IN
+       IF ~res.ok \/ d1 \notin res.nexts THEN <<"decoder control state", e.pk0, e.pk1>>
+       ELSE IF d0.prevMode = 0 /\ ~coded THEN <<>>            \* nothing decoded yet: the frame is skipped, nothing is decided
+       ELSE IF ~DecFrameAllows(mode, lenLast, obs) THEN <<"redundancy decision", mode, lenLast, e.hs>>
+       ELSE IF coded /\ d1.prevRedundancy # (obs.red /\ ~obs.c2s) THEN <<"prev_redundancy", e.hs, e.pk1>>
+       ELSE IF (e.hs[4] # 0) \notin {TransitionOf(x, mode, coded, obs.red) : x \in pre} THEN <<"transition", e.hs, e.pk0>>
+       ELSE <<>>
+
 -----------------------------------------------------------------------------
 (* C09 *)
 Qo == Q(cf.fo)
-DecOfPeek(pk) == [Fs |-> cf.fo, ch |-> cf.co, prevMode |-> pk[2], mode |-> pk[1], bw |-> pk[6], frameSize |-> pk[4],
-                  streamCh |-> pk[5], prevRedundancy |-> (pk[3] # 0), lastDur |-> pk[7], gain |-> 0]
+DecOfPeek(pk) == DecOfPeekAt(pk, cf.fo, cf.co)
 
 PkWhy(e) ==
   IF e.r < 1 THEN <<"encoder failed", e.r>>
@@ -103,6 +130,17 @@ FecRecovers(e) == /\ e.t = "F" /\ cf.fec >= 1 /\ e.lb = 1
 
 Level == LevelOf(w.lv5)
 
+\* R2 sub-domains of the two clauses that hold only there (calibration table in spec/cfg/LinkTrace.cfg):
+\* clean talk spurts separated by exact digital silence (family 11: harmonic, modulated, no additive noise, so the
+\* decoder's comfort-noise floor is zero) concealed by the speech / hybrid layer.  (Family 12, the same without
+\* pauses, is measured but not asserted: its concealment settles only 3 dB below the level.)
+CleanSpeechLayer == cf.sig = 11 /\ D!PlcMode(w.d) \in {MODE_SILK, MODE_HYBRID}
+\* strong in-band FEC: speech-only wideband mono stream, FEC on with >= 20 % announced loss, >= 32 kb/s,
+\* speech-like signal; an isolated loss (the packets before it arrived) recovered by a one-packet FEC call
+StrongFecStream == /\ cf.fm = MODE_SILK /\ cf.Fs = 16000 /\ cf.ch = 1 /\ cf.fec >= 1 /\ cf.loss >= 20 /\ cf.br >= 32000
+                   /\ cf.sig \in {1, 11, 12} /\ cf.U \in {8, 16, 24}
+IsolatedFec(e) == StrongFecStream /\ FecRecovers(e) /\ e.u = cf.U /\ w.run = 0 /\ w.since >= 2 * cf.U
+
 RxWhy(e) ==
   LET c == CallOf(e)
       want == CallWant(w.d, c, cf.U)
@@ -122,6 +160,8 @@ RxWhy(e) ==
        THEN <<"concealment does not decay under sustained loss", e.lv, Level, w.run>>
   ELSE IF conceals /\ Level >= LevelFloor /\ w.run >= M2LateAfter /\ D!PlcMode(w.d) = MODE_CELT /\ e.lv > Level - M2Late /\ e.lv > LevelFloor - M2Late
        THEN <<"concealment does not decay under sustained loss (late)", e.lv, Level, w.run>>
+  ELSE IF conceals /\ Level >= LevelFloor /\ w.run >= M5After /\ CleanSpeechLayer /\ e.lv > Level - M5 /\ e.lv > LevelFloor - M5
+       THEN <<"speech-layer concealment of a clean signal does not decay under sustained loss", e.lv, Level, w.run>>
   ELSE <<>>
 
 TWhy(e) ==
@@ -139,11 +179,18 @@ Conforms(e) ==
 
 Step(e) ==
   CASE e.k = "new" -> /\ cf' = e /\ w' = NoW /\ acc' = [NoAcc EXCEPT !.drift = acc.drift] /\ l' = l + 1
-    [] e.k \in {"set", "rst", "end"} -> /\ l' = l + 1 /\ UNCHANGED <<cf, w, acc>>
+    [] e.k \in {"set", "rst"} -> /\ l' = l + 1 /\ UNCHANGED <<cf, w, acc>>
+    [] e.k = "end" -> /\ l' = l + 1 /\ UNCHANGED <<cf, w, acc>>
+                      /\ (IF acc.nf = 0 THEN TRUE ELSE PrintT("RED " \o ToString(acc.nf)))
     [] e.k = "enc" ->
          IF cf.k # "new" \/ cf.ok # 1 THEN Reject(<<"harness: no object">>)
          ELSE LET why == EncWhy(e) IN
-              IF why # <<>> THEN Reject(why) ELSE /\ l' = l + 1 /\ UNCHANGED <<cf, w, acc>>
+              IF why # <<>> THEN Reject(why)
+              ELSE LET c == EncConf(e) IN
+                   /\ l' = l + 1 /\ UNCHANGED <<cf, w>>
+                   /\ acc' = [acc EXCEPT !.drift = IF c = <<>> THEN acc.drift ELSE acc.drift + 1,
+                                         !.nf = IF "hs" \in DOMAIN e /\ e.hs[1] # 0 THEN acc.nf + 1 ELSE acc.nf]
+                   /\ (IF c = <<>> THEN TRUE ELSE Drift(c))
     [] e.k = "L" -> /\ cf' = e /\ w' = NoW /\ acc' = [NoAcc EXCEPT !.drift = acc.drift] /\ l' = l + 1
     [] e.k = "pk" ->
          IF cf.k # "L" THEN Reject(<<"harness: no stream">>)
@@ -167,6 +214,8 @@ Step(e) ==
                   rec == FecRecovers(e) /\ acc.nf < 4000
                   c1 == ~good /\ ~FecRecovers(e) /\ Level >= LevelFloor
                   c2 == c1 /\ w.run >= 160 /\ D!PlcMode(w.d) = MODE_CELT
+                  c5 == c1 /\ CleanSpeechLayer /\ w.run >= 400
+                  r3 == IsolatedFec(e) /\ acc.nf3 < 4000
                   units == e.r \div Qo IN
               IF why # <<>> THEN Reject(why)
               ELSE /\ w' = [w EXCEPT !.pos = w.pos + units,
@@ -186,7 +235,13 @@ Step(e) ==
                                          !.o2 = IF c2 THEN Mx(acc.o2, e.lv - Mx(Level, LevelFloor)) ELSE acc.o2,
                                          !.n2 = IF c2 /\ acc.n2 < 1000000 THEN acc.n2 + 1 ELSE acc.n2,
                                          !.o2b = IF c2 /\ w.run >= 400 THEN Mx(acc.o2b, e.lv - Mx(Level, LevelFloor)) ELSE acc.o2b,
-                                         !.o2c = IF c2 /\ w.run >= 800 THEN Mx(acc.o2c, e.lv - Mx(Level, LevelFloor)) ELSE acc.o2c]
+                                         !.o2c = IF c2 /\ w.run >= 800 THEN Mx(acc.o2c, e.lv - Mx(Level, LevelFloor)) ELSE acc.o2c,
+                                         !.o5 = IF c5 THEN Mx(acc.o5, e.lv - Mx(Level, LevelFloor)) ELSE acc.o5,
+                                         !.o5b = IF c5 /\ w.run >= 800 THEN Mx(acc.o5b, e.lv - Mx(Level, LevelFloor)) ELSE acc.o5b,
+                                         !.n5 = IF c5 /\ acc.n5 < 1000000 THEN acc.n5 + 1 ELSE acc.n5,
+                                         !.sf3 = IF r3 THEN acc.sf3 + e.fe ELSE acc.sf3,
+                                         !.sp3 = IF r3 THEN acc.sp3 + e.pe ELSE acc.sp3,
+                                         !.nf3 = IF r3 THEN acc.nf3 + 1 ELSE acc.nf3]
                    /\ (IF Conforms(e) THEN TRUE ELSE Drift(<<"decoder control state", e.t, e.pk>>))
                    /\ l' = l + 1 /\ UNCHANGED cf
     [] e.k = "endW" ->
@@ -200,9 +255,10 @@ Step(e) ==
     [] e.k = "endL" ->
          \* in-band FEC reconstructs the lost frames far more accurately than concealment does:
          \* aggregated over the stream, error energy at most M3Num/M3Den of the concealment error
-         IF CheckM3 /\ acc.nf >= MinFecFrames /\ acc.sf > (acc.sp \div M3Den) * M3Num
-         THEN Reject(<<"FEC is not far more accurate than concealment", acc.sf, acc.sp, acc.nf>>)
-         ELSE /\ PrintT("OBS " \o ToString(<<cf.x, acc.nf, acc.sf, acc.sp, acc.o1, acc.n1, acc.o2, acc.n2, acc.o4, acc.n4, acc.o2b, acc.o2c>>))
+         \* (judged on the StrongFecStream sub-domain, isolated losses only)
+         IF CheckM3 /\ acc.nf3 >= MinFecFrames /\ acc.sf3 > (acc.sp3 \div M3Den) * M3Num
+         THEN Reject(<<"FEC is not far more accurate than concealment", acc.sf3, acc.sp3, acc.nf3>>)
+         ELSE /\ PrintT("OBS " \o ToString(<<cf.x, acc.nf, acc.sf, acc.sp, acc.o1, acc.n1, acc.o2, acc.n2, acc.o4, acc.n4, acc.o2b, acc.o2c, acc.o5, acc.o5b, acc.n5, acc.nf3, acc.sf3, acc.sp3>>))
               /\ cf' = NoCfg /\ w' = NoW /\ acc' = [NoAcc EXCEPT !.drift = acc.drift] /\ l' = l + 1
     [] OTHER -> Reject(<<"unexpected event", e.k>>)       \* Hang, Canary, bad
 
